@@ -383,7 +383,19 @@ export class TypeGen {
         [1, () => A.inter([A.kw("string"), A.kw("number")])],
       ])();
     }
-    // object & record
+    // object & record: the record's value type judges the object's own keys as well - any / unknown,
+    // or a constrained type that a declared literal may or may not satisfy
+    if (r.chance(0.5)) {
+      const lits = r.shuffle(["on", "off", "auto", "x"]);
+      const declared = A.union(lits.slice(0, 1 + r.below(2)).map((s) => A.lit(s)));
+      const val = r.wpick([
+        [3, () => A.union(r.shuffle(lits).slice(0, 2).map((s) => A.lit(s)))],
+        [2, () => A.kw("string")],
+        [1, () => ({ k: "tpl", parts: ["o", A.kw("string")] })],
+        [1, () => A.union([A.kw("string"), A.kw("number")])],
+      ])();
+      return A.inter(r.shuffle([A.obj([A.prop("mode", declared, r.chance(0.3))]), A.util("Record", [A.kw("string"), val])]));
+    }
     return A.inter([A.obj(this.props(depth, 1)), A.util("Record", [A.kw("string"), A.kw(r.pick(["any", "unknown"]))])]);
   }
   utilType(depth) {
